@@ -183,6 +183,7 @@ func (ex *Exec) resetPath(prefix []decision) {
 	ex.slotIDs = nil
 	ex.gobTab = nil
 	ex.csvTab = nil
+	ex.evlog = nil
 	ex.undo = nil
 	ex.ifcDepth = 0
 	ex.bufID = 0
